@@ -53,13 +53,31 @@ class Unit:
         self.ctx.count(self.name, self.n, len(self.nontriv), self.dist)
 
 
-def crosscheck(ctx, unit, eqs, imports):
-    n, fails = lib.coq_crosscheck("C19", imports, eqs)
-    ctx.coverage.setdefault("kernel_crosscheck", {})[unit] = {"equations": n, "failed_files": len(fails)}
+_PENDING = []     # (unit, equation) pairs collected by the units; checked by one coqc run at the end
+
+ALL_IMPORTS = ("From SV Require Import Model.PeakHelpers Model.Peaks Model.Merging Model.PeakProps "
+               "Model.Splitting Model.SumWaveform.")
+
+
+def crosscheck(ctx, unit, eqs, imports=None):
+    """queue `lhs = rhs` equations for the kernel cross-check of the extraction (vm_compute inside coqc)"""
+    for e in eqs:
+        _PENDING.append((unit, e))
+
+
+def flush_crosscheck(ctx):
+    if not _PENDING:
+        return
+    eqs = [e for _, e in _PENDING]
+    per_unit = {}
+    for u, _ in _PENDING:
+        per_unit[u] = per_unit.get(u, 0) + 1
+    del _PENDING[:]
+    n, fails = lib.coq_crosscheck("C19", ALL_IMPORTS, eqs, shard=1000)
+    ctx.coverage["kernel_crosscheck"] = {"equations": n, "per_unit": per_unit, "failed_files": len(fails)}
     if fails:
-        ctx.violation(unit, "extracted model and Coq vm_compute disagree: " + fails[0][-400:],
-                      {"input": "corr:C19/%s/extraction-crosscheck" % unit, "log": fails[0]},
-                      no_failing_input=True)
+        ctx.violation("extraction", "extracted model and Coq vm_compute disagree: " + fails[0][-400:],
+                      {"input": "corr:C19/extraction-crosscheck", "log": fails[0]}, no_failing_input=True)
 
 
 def big(ctx):
